@@ -11,6 +11,7 @@ Verdict(ev) ==
          [] cs.op = "s_binop" -> IF SeriesOpOK(cs.fn, cs.a, cs.b, ev.res) THEN "ok" ELSE "series_alignment"
          [] cs.op = "f_binop" -> IF FrameOpOK(cs.fn, cs.a, cs.b, ev.res) THEN "ok" ELSE "frame_alignment"
          [] cs.op = "fs_binop" -> IF FrameSeriesOpOK(cs.fn, cs.a, cs.b, ev.res) THEN "ok" ELSE "frame_series_alignment"
+         [] cs.op = "fsT_binop" -> IF FrameSeriesTOpOK(cs.fn, cs.a, cs.b, ev.res) THEN "ok" ELSE "frame_series_axis1_alignment"
          [] cs.op = "f_scalar" -> IF ScalarOpOK(cs.fn, cs.a, cs.v, ev.res, cs.reflected) THEN "ok" ELSE "scalar"
 Init == l = 1
 Next == /\ l <= Len(Trace)
